@@ -166,15 +166,14 @@ UNEVEN = [(4, 3), (5, 2), (5, 3), (5, 4), (6, 4), (7, 2), (7, 3), (7, 5)]
 
 def _uneven(rng, tier):
     """Axis 0 / axis 1 with 4-7 slices and 2-5 jobs (UNEVEN), per-slice option list or one shared dictionary, through the
-    function and (dictionary) the group object; the other extent is 1 or 2.  Quick: four of the pairs, thorough: all,
-    both axes."""
+    function compute_features_3d (axes alternating); the other extent is 1 or 2.  Quick: three of the pairs (per-slice list, other extent 1), thorough: all."""
     out = []
-    pairs = rng.sample(UNEVEN, 4) if tier == 'quick' else UNEVEN
+    pairs = rng.sample(UNEVEN, 3) if tier == 'quick' else UNEVEN
     for i, (n_slices, jobs) in enumerate(pairs):
-        for ax in ((i % 2,) if tier == 'quick' else (0, 1)):
-            other = rng.choice([1, 2])
+        for ax in (i % 2,):
+            other = 1 if tier == 'quick' else rng.choice([1, 2])
             n0, n1 = (n_slices, other) if ax == 0 else (other, n_slices)
-            for mode, via in ([('list', 'func')] if tier == 'quick' and i % 2 else [('list', 'func'), ('dict', rng.choice(['func', 'group']))]):
+            for mode, via in ([('list', 'func')] if tier == 'quick' else [('list', 'func'), ('dict', 'func')]):   # function entry only: the object model of a 7 x 2 group takes minutes to evaluate in Coq
                 c = _one(rng, n0, n1, ax, mode, via, fresh=(via == 'func'))
                 if c is None:
                     continue
